@@ -59,7 +59,10 @@ def cases(draw, max_lines=48, max_pixels=32):
         "rows": [draw(st.integers(0, n - 1)), draw(st.sampled_from([1, 2, 3, 4, 5, 7, -1, -3]))],
         "cols": sorted([draw(st.integers(0, p)), draw(st.integers(0, p))]),
     }
-    return {"level": level, "images": images, "rpc": rpc, "fs": fs, "vseed": vseed, "window": window}
+    case = {"level": level, "images": images, "rpc": rpc, "fs": fs, "vseed": vseed, "window": window}
+    if draw(st.integers(0, 5)) == 0:
+        case["create_cache"] = True  # the judged tree also wrote the index cache
+    return case
 
 
 def plan(tier):
@@ -140,9 +143,12 @@ def run_case(case):
     files, info = product.build_product(spec)
     out = []
     with harness.Materialised(files, case["fs"]) as prod:
+        opts = {"create_cache": True} if case.get("create_cache") else {}
         tree, err = harness.guard(
-            harness.open_tree, prod.url, records_per_chunk=case["rpc"], use_cache=False
+            harness.open_tree, prod.url, records_per_chunk=case["rpc"], use_cache=False, **opts
         )
+        if opts:
+            common.drop_user_cache(prod.url, info["names"]["sar_imagery"])
         if err is not None:
             return [harness.disc("exception", "open_alos2", "a tree", harness.exc_text(err))]
         for iinfo, gname in zip(info["images"], common.group_names(spec)):
